@@ -31,16 +31,17 @@ type c09Feed struct {
 }
 
 type c09Case struct {
-	Prefill bool `json:"prefill"` // the reused receiver starts as a value the application filled in itself (every field set)
-	Kind     string    `json:"kind"`
-	Src      string    `json:"src"` // bytes | feed | sweep
-	Items    [][]int   `json:"items"`
-	Feed     c09Feed   `json:"feed"`
-	Edits    []c09Edit `json:"edits"`
-	Probes   bool      `json:"probes"`
-	Scribble bool      `json:"scribble"`
-	Hi       int       `json:"hi"`
-	Class    string    `json:"class"`
+	Prefill   bool      `json:"prefill"`   // the reused receiver starts as a value the application filled in itself (every field set)
+	ZeroAlloc bool      `json:"zeroalloc"` // every receiver of the case runs in SetZeroAllocation(true) mode
+	Kind      string    `json:"kind"`
+	Src       string    `json:"src"` // bytes | feed | sweep
+	Items     [][]int   `json:"items"`
+	Feed      c09Feed   `json:"feed"`
+	Edits     []c09Edit `json:"edits"`
+	Probes    bool      `json:"probes"`
+	Scribble  bool      `json:"scribble"`
+	Hi        int       `json:"hi"`
+	Class     string    `json:"class"`
 }
 
 type depack interface {
@@ -67,7 +68,9 @@ func (a *av1Legacy) Unmarshal(b []byte) ([]byte, error) {
 	}
 	return out, err
 }
-func (a *av1Legacy) IsPartitionHead(b []byte) bool         { return (&codecs.AV1Depacketizer{}).IsPartitionHead(b) }
+func (a *av1Legacy) IsPartitionHead(b []byte) bool {
+	return (&codecs.AV1Depacketizer{}).IsPartitionHead(b)
+}
 func (a *av1Legacy) IsPartitionTail(m bool, b []byte) bool { return m }
 
 // h265Sub adapts the public H265 sub-packet types (Unmarshal only).
@@ -75,8 +78,8 @@ type h265Sub struct {
 	u interface{ Unmarshal([]byte) ([]byte, error) }
 }
 
-func (s *h265Sub) Unmarshal(b []byte) ([]byte, error) { return s.u.Unmarshal(b) }
-func (s *h265Sub) IsPartitionHead(b []byte) bool       { return (&codecs.H265Packet{}).IsPartitionHead(b) }
+func (s *h265Sub) Unmarshal(b []byte) ([]byte, error)    { return s.u.Unmarshal(b) }
+func (s *h265Sub) IsPartitionHead(b []byte) bool         { return (&codecs.H265Packet{}).IsPartitionHead(b) }
 func (s *h265Sub) IsPartitionTail(m bool, _ []byte) bool { return m }
 
 func newDepack(kind string) depack {
@@ -285,11 +288,21 @@ func runC09(raw json.RawMessage, w *Writer) {
 		return
 	}
 	items := c09Items(c)
-	used := newDepack(c.Kind)
+	mk := func() depack {
+		d := newDepack(c.Kind)
+		if z, ok := d.(interface{ SetZeroAllocation(bool) }); ok && c.ZeroAlloc {
+			z.SetZeroAllocation(true)
+		}
+		return d
+	}
+	used := mk()
 	if c.Prefill {
 		used = fullDepack(c.Kind)
+		if z, ok := used.(interface{ SetZeroAllocation(bool) }); ok && c.ZeroAlloc {
+			z.SetZeroAllocation(true)
+		}
 	}
-	twin := newDepack(c.Kind)
+	twin := mk()
 	var given [][]byte
 	// a socket-style caller: one receive buffer, refilled for every packet
 	rxbuf := make([]byte, 0, 64)
@@ -308,7 +321,7 @@ func runC09(raw json.RawMessage, w *Writer) {
 			r, _ := guard(func() {
 				h1 = used.IsPartitionHead(buf)
 				t1 = used.IsPartitionTail(k%2 == 0, buf)
-				f := newDepack(c.Kind)
+				f := mk()
 				h2 = f.IsPartitionHead(cloneBytes(it))
 				t2 = f.IsPartitionTail(k%2 == 0, cloneBytes(it))
 			})
@@ -330,7 +343,7 @@ func runC09(raw json.RawMessage, w *Writer) {
 		tr, _ := guard(func() { tout, terr = twin.Unmarshal(cloneBytes(it)) })
 		e["twin_res"], e["twin_out"] = outcome(tr, terr), ints(tout)
 		if perPacket(c.Kind) {
-			f := newDepack(c.Kind)
+			f := mk()
 			if c.Kind == "h265_toggle" {
 				f.(*codecs.H265Packet).WithDONL(donlNow)
 			}
